@@ -638,7 +638,8 @@ protected:
     /**
      * Check that the UTF-16 code unit at a position is either a
      * character on its own, or one half of a well-formed surrogate
-     * pair.  An unpaired surrogate cannot be written in any encoding.
+     * pair, and that it is not one of the non-characters U+FFFE and
+     * U+FFFF.  None of these can appear in a well-formed document.
      *
      * @param chars the string.
      * @param i the position of the code unit.
@@ -669,6 +670,11 @@ protected:
             {
                 throwInvalidUTF16SurrogateException(i == 0 ? XalanDOMChar(0) : chars[i - 1], ch, getMemoryManager());
             }
+        }
+        else if (ch >= 0xFFFEu)
+        {
+            // U+FFFE and U+FFFF are not characters in any version of XML.
+            throwInvalidXMLCharacterException(ch, m_version, getMemoryManager());
         }
     }
 
